@@ -24,7 +24,7 @@ use core::task::{Context, Poll};
 
 const FOREIGN_PREFIX: [u8; 12] = [0x77; 12];
 
-fn kernel(n: usize, deliveries: usize) {
+fn kernel(n: usize, deliveries: usize) -> (bool, i64, [bool; 3], bool) {
     let wguid = s1::writer_guid(0, 0);
     let mut w = RtpsStatefulWriter::new(wguid, 1344);
     let rel: [bool; 3] = kani::any();
@@ -76,14 +76,8 @@ fn kernel(n: usize, deliveries: usize) {
     }
     let got = w.is_change_acknowledged(sn);
     assert!(got == expect, "C03: is_change_acknowledged(sn) iff every matched RELIABLE reader acknowledged >= sn");
-    if deliveries > 0 {
-        kani::cover!(got && sn >= 2 && rel[0], "acknowledged by a reliable reader");
-        kani::cover!(!got && accepted_any, "an accepted ACKNACK that does not cover sn");
-    } else {
-        kani::cover!(!got && !rel[0] && rel[n - 1], "blocked by the last reader only");
-    }
-    kani::cover!(got && !rel[0] && !rel[1] && !rel[2] && sn > 0, "best-effort readers never block");
     core::mem::forget(w);
+    (got, sn, rel, accepted_any)
 }
 
 // @check props=C03 tier=quick
@@ -99,7 +93,10 @@ fn kernel(n: usize, deliveries: usize) {
 #[kani::unwind(4)]
 fn c03_kernel_one_proxy() {
     s1::link_drop_glue();
-    kernel(1, 2);
+    let (got, sn, rel, accepted_any) = kernel(1, 2);
+    kani::cover!(got && sn >= 2 && rel[0], "acknowledged by a reliable reader");
+    kani::cover!(!got && accepted_any, "an accepted ACKNACK that does not cover sn");
+    kani::cover!(got && !rel[0] && sn > 0, "best-effort reader never blocks");
 }
 
 // @check props=C03 tier=quick
@@ -111,7 +108,10 @@ fn c03_kernel_one_proxy() {
 #[kani::unwind(5)]
 fn c03_kernel_every_reliable_reader() {
     s1::link_drop_glue();
-    kernel(3, 0);
+    let (got, sn, rel, _) = kernel(3, 0);
+    kani::cover!(!got && !rel[0] && !rel[1] && rel[2], "blocked by the last reader only");
+    kani::cover!(got && !rel[0] && !rel[1] && !rel[2] && sn > 0, "best-effort readers never block");
+    kani::cover!(got && rel[0] && rel[1] && rel[2], "nothing to acknowledge (sn <= 0)");
 }
 
 // @check props=C03 tier=thorough
@@ -124,7 +124,9 @@ fn c03_kernel_every_reliable_reader() {
 #[kani::unwind(4)]
 fn c03_kernel_two_proxies() {
     s1::link_drop_glue();
-    kernel(2, 1);
+    let (got, sn, rel, accepted_any) = kernel(2, 1);
+    kani::cover!(got && sn >= 2 && rel[0] && !rel[1], "acknowledged by the only reliable reader");
+    kani::cover!(!got && accepted_any, "an accepted ACKNACK that does not cover sn");
 }
 
 // ---- participant level ---------------------------------------------------------------------------------------
